@@ -336,3 +336,18 @@ def int_import_keeps_precision(ctx):
     """shared with C01.R3b: IntRange.__call__ (= its import_value) converts the offered value itself, not a float copy"""
     from sa.rules import c01
     c01.int_of_the_value_itself(ctx)
+
+
+@rule('C02.R6c', min_instances=1)
+def one_member_tuple_text_form(ctx):
+    """TupleOf.format_value: the text of a one-member tuple needs a trailing comma to be a python tuple literal"""
+    m = ctx.m
+    f = m.method(f'{DT}.TupleOf', 'format_value', inherited=False)
+    ctx.analysed(f)
+    text = ' '.join(src(r.value, 600) for r in body_walk(f.node) if isinstance(r, ast.Return) and r.value is not None)
+    ok = ("len(" in text and "== 1" in text and "','" in text) or 'repr(tuple' in text
+    if "', '.join" not in text and 'repr(tuple' not in text:
+        ctx.undecided(f'{f.qualname}:one-member tuple', f.node, 'format not recognised', f)
+        return
+    ctx.check(ok, f'{f.qualname}:one-member tuple has a trailing comma', f.node, 'a trailing comma is written when len(members) == 1',
+              "a tuple with a single member is written as '(1)', which literal_eval reads as the int 1: from_string(to_string(v)) is refused", f)
